@@ -18,13 +18,24 @@ pushed.  Core Lean only.
 -/
 namespace Parmcb
 
-/-- what the `for` loop over `out_edges(v)` of `bidirectional_signed_dijkstra` sees from signed node `x`, in order:
+/-- insertion into a list of out-edges sorted by the rank `ord` of the edge id -/
+def insertByOrd (ord : List Nat) (p : Nat × Nat) : List (Nat × Nat) → List (Nat × Nat)
+  | [] => [p]
+  | q :: r => if ord.getD p.1 0 < ord.getD q.1 0 then p :: q :: r else q :: insertByOrd ord p r
+
+/-- `out_edges(v)` of the graph in ForestIndex coordinates in the order the CALLER inserted the edges: `ord[e]` = the
+caller's id of edge `e` (`fi.reverse`).  (The model graph lists out-edges by edge id; the C++ iterates them in insertion
+order of the caller's graph, whatever numbering the ForestIndex gives them.) -/
+def adjOrd (g : Graph) (ord : List Nat) (v : Nat) : List (Nat × Nat) := (g.adj v).foldr (insertByOrd ord) []
+
+/-- what the `for` loop over `out_edges(v)` of `bidirectional_signed_dijkstra` sees from signed node `x`, in order
+(the out-edges of every vertex in the order `ord`, see `adjOrd`):
 hidden edges skipped, self-loops skipped, level flipped across signed edges; entries (neighbour node, weight, edge id) -/
-def sgAdjE (g : Graph) (S hidden : List Nat) : Array (List (Nat × Int × Nat)) :=
+def sgAdjE (g : Graph) (ord : List Nat) (S hidden : List Nat) : Array (List (Nat × Int × Nat)) :=
   Array.ofFn (n := 2 * g.n) fun x =>
     let v := if x.val < g.n then x.val else x.val - g.n
     let s := decide (x.val < g.n)
-    (g.adj v).filterMap fun (e, w) =>
+    (adjOrd g ord v).filterMap fun (e, w) =>
       if hidden.contains e then none
       else if w = v then none
       else some (sgNode g.n w (if S.contains e then !s else s), g.weight e, e)
@@ -35,13 +46,13 @@ that search -/
 abbrev PickFam := Nat → Option Int → Pick
 
 /-- one call of `bidirectional_signed_dijkstra(g, weight, signed_edges, hidden_edges, …, s, s_pos, t, t_pos, use_limit, limit)` -/
-def searchSigned (g : Graph) (pick : Pick) (S hidden : List Nat) (s : Nat) (sPos : Bool) (t : Nat) (tPos : Bool)
+def searchSigned (g : Graph) (ord : List Nat) (pick : Pick) (S hidden : List Nat) (s : Nat) (sPos : Bool) (t : Nat) (tPos : Bool)
     (limit : Option Int) : Cyc (List Nat) :=
-  biSearch (sgAdjE g S hidden) pick g.weight limit (sgNode g.n s sPos) (sgNode g.n t tPos)
+  biSearch (sgAdjE g ord S hidden) pick g.weight limit (sgNode g.n s sPos) (sgNode g.n t tPos)
 
 /-- `|S| ≥ n`: `for v in vertices: res = search(v+, v-, limit = best); if found and (no best or res < best) best = res` -/
-def allVerticesLoop (g : Graph) (pk : PickFam) (S : List Nat) : Cyc (List Nat) :=
-  seqMin (fun v L => searchSigned g (pk v L) S [] v true v false L) 0 g.n
+def allVerticesLoop (g : Graph) (ord : List Nat) (pk : PickFam) (S : List Nat) : Cyc (List Nat) :=
+  seqMin (fun v L => searchSigned g ord (pk v L) S [] v true v false L) 0 g.n
 
 /-- what one step of the hidden-edge loop makes of a search result for signed edge `e` -/
 def hiddenTake (g : Graph) (e : Nat) (best res : Cyc (List Nat)) : Cyc (List Nat) :=
@@ -57,19 +68,19 @@ def hiddenTake (g : Graph) (e : Nat) (best res : Cyc (List Nat)) : Cyc (List Nat
 
 /-- the result of the search for signed edge `e` with the edges `hid` hidden, as a complete cycle candidate: the path
 plus `e` (`none` when nothing is found or the path already contains `e`) -/
-def hiddenSearch (g : Graph) (pk : PickFam) (S hid : List Nat) (e : Nat) (limit : Option Int) : Cyc (List Nat) :=
-  searchSigned g (pk e limit) S hid (g.src e) true (g.tgt e) true limit
+def hiddenSearch (g : Graph) (ord : List Nat) (pk : PickFam) (S hid : List Nat) (e : Nat) (limit : Option Int) : Cyc (List Nat) :=
+  searchSigned g ord (pk e limit) S hid (g.src e) true (g.tgt e) true limit
 
 /-- `|S| < n`: the hidden-edge heuristic; the list argument is the not yet visited part of the `std::set` iteration,
 which is also the current hidden set (`hidden_edges.erase(hidden_edges.begin())` after every search) -/
-def hiddenLoop (g : Graph) (pk : PickFam) (S : List Nat) : List Nat → Cyc (List Nat) → Cyc (List Nat)
+def hiddenLoop (g : Graph) (ord : List Nat) (pk : PickFam) (S : List Nat) : List Nat → Cyc (List Nat) → Cyc (List Nat)
   | [], best => best
   | e :: rest, best =>
-    hiddenLoop g pk S rest (hiddenTake g e best (hiddenSearch g pk S (e :: rest) e (best.map (·.1))))
+    hiddenLoop g ord pk S rest (hiddenTake g e best (hiddenSearch g ord pk S (e :: rest) e (best.map (·.1))))
 
 /-- the odd-cycle search of one phase of `mcb_sva_signed` -/
-def signedPhaseSearch (g : Graph) (pk : PickFam) (σ : List Nat) (S : List Nat) : Cyc (List Nat) :=
-  if g.n ≤ S.length then allVerticesLoop g pk S else hiddenLoop g pk S σ none
+def signedPhaseSearch (g : Graph) (ord : List Nat) (pk : PickFam) (σ : List Nat) (S : List Nat) : Cyc (List Nat) :=
+  if g.n ≤ S.length then allVerticesLoop g ord pk S else hiddenLoop g ord pk S σ none
 
 /-- phases `k, k+1, …` of the main loop for a per-phase search `search k S`; the support bookkeeping is the literal
 `swapAt`/`swapIndex`/`updateSup` of `Model/DePina.lean`.  A phase without result emits the initial value of `best`
@@ -93,35 +104,35 @@ def mcbSignedCore (v : Variant) (N : Nat) (sup0 : List (List Nat)) (search : Nat
 def mcbSigned (g : Graph) (order : List Nat) (pick : Nat → PickFam) (σ : Nat → List Nat → List Nat) : McbResult :=
   let fi := createIndex g order
   let gi := reindex g fi
-  let r := mcbSignedCore .signed fi.dim (unitSupports fi.dim) (fun k S => signedPhaseSearch gi (pick k) (σ k S) S)
+  let r := mcbSignedCore .signed fi.dim (unitSupports fi.dim) (fun k S => signedPhaseSearch gi fi.reverse (pick k) (σ k S) S)
   { cycles := translateBack fi.reverse r.cycles, weight := r.weight }
 
 /-! ### the TBB variant (parmcb_sva_signed_tbb.hpp) -/
 
 /-- `find_all_vertices`: `parallel_reduce` over the vertices, running minimum as weight limit, joined by `cycle_min` -/
-def allVerticesTbb (g : Graph) (pk : PickFam) (S : List Nat) (s : Sched) : Cyc (List Nat) :=
-  reduceMin (fun v L => searchSigned g (pk v L) S [] v true v false L) s
+def allVerticesTbb (g : Graph) (ord : List Nat) (pk : PickFam) (S : List Nat) (s : Sched) : Cyc (List Nat) :=
+  reduceMin (fun v L => searchSigned g ord (pk v L) S [] v true v false L) s
 
 /-- one index of `find_less_than_vertices`: signed edge `σ[i]`, hidden set = `σ[i], σ[i+1], …` (a suffix of the `std::set`
 order, computed per index), the path completed by the signed edge -/
-def hiddenIndexTbb (g : Graph) (pk : PickFam) (S σ : List Nat) (i : Nat) (limit : Option Int) : Cyc (List Nat) :=
+def hiddenIndexTbb (g : Graph) (ord : List Nat) (pk : PickFam) (S σ : List Nat) (i : Nat) (limit : Option Int) : Cyc (List Nat) :=
   match σ[i]? with
   | none => none
-  | some e => hiddenTake g e none (hiddenSearch g pk S (σ.drop i) e limit)
+  | some e => hiddenTake g e none (hiddenSearch g ord pk S (σ.drop i) e limit)
 
-def hiddenTbb (g : Graph) (pk : PickFam) (S σ : List Nat) (s : Sched) : Cyc (List Nat) :=
-  reduceMin (hiddenIndexTbb g pk S σ) s
+def hiddenTbb (g : Graph) (ord : List Nat) (pk : PickFam) (S σ : List Nat) (s : Sched) : Cyc (List Nat) :=
+  reduceMin (hiddenIndexTbb g ord pk S σ) s
 
 /-- `find_single_edge`: a support with exactly one signed edge `e` is searched with an EMPTY signed set and `e` hidden,
 without limit -/
-def singleEdgeTbb (g : Graph) (pk : PickFam) (e : Nat) : Cyc (List Nat) :=
-  hiddenTake g e none (searchSigned g (pk e none) [] [e] (g.src e) true (g.tgt e) true none)
+def singleEdgeTbb (g : Graph) (ord : List Nat) (pk : PickFam) (e : Nat) : Cyc (List Nat) :=
+  hiddenTake g e none (searchSigned g ord (pk e none) [] [e] (g.src e) true (g.tgt e) true none)
 
 /-- `OddCycleFinder::find` -/
-def signedPhaseSearchTbb (g : Graph) (pk : PickFam) (σ : List Nat) (S : List Nat) (s : Sched) : Cyc (List Nat) :=
+def signedPhaseSearchTbb (g : Graph) (ord : List Nat) (pk : PickFam) (σ : List Nat) (S : List Nat) (s : Sched) : Cyc (List Nat) :=
   match S with
-  | [e] => singleEdgeTbb g pk e
-  | _ => if g.n ≤ S.length then allVerticesTbb g pk S s else hiddenTbb g pk S σ s
+  | [e] => singleEdgeTbb g ord pk e
+  | _ => if g.n ≤ S.length then allVerticesTbb g ord pk S s else hiddenTbb g ord pk S σ s
 
 /-- `mcb_sva_signed_tbb`: `perm` = the order in which the concurrent `push_back`s filled the support vector,
 `scheds k S` = the execution of phase `k`'s `parallel_reduce` (the parallel support update equals the sequential one for
@@ -131,7 +142,7 @@ def mcbSignedTbb (g : Graph) (order : List Nat) (pick : Nat → PickFam) (σ : N
   let fi := createIndex g order
   let gi := reindex g fi
   let r := mcbSignedCore .signedTbb fi.dim (perm.map fun i => [i])
-    (fun k S => signedPhaseSearchTbb gi (pick k) (σ k S) S (scheds k S))
+    (fun k S => signedPhaseSearchTbb gi fi.reverse (pick k) (σ k S) S (scheds k S))
   { cycles := translateBack fi.reverse r.cycles, weight := r.weight }
 
 end Parmcb
